@@ -495,8 +495,9 @@ func (w *stWorld) dial(network, addr string) (net.Conn, error) {
 			H.Close()
 		})
 	case "drip":
-		// a covert host that sends on its own, slowly, and never answers what it receives: five
-		// chunks of 600 bytes, 12 s apart (a one-way download that lasts a minute)
+		// a covert host that sends on its own, steadily, and never answers what it receives:
+		// stDripN chunks of 100 bytes, 2 s apart (a one-way download that lasts a minute; the gaps
+		// are short so that no plausible idle timeout is involved, only the total duration counts)
 		w.s.Spawn(name, func() {
 			buf := make([]byte, 65536)
 			for {
@@ -507,8 +508,8 @@ func (w *stWorld) dial(network, addr string) (net.Conn, error) {
 			H.Close()
 		})
 		w.s.Spawn(name+".drip", func() {
-			for k := 0; k < 5; k++ {
-				time.Sleep(12 * time.Second)
+			for k := 0; k < stDripN; k++ {
+				time.Sleep(stDripGap)
 				if _, err := H.Write(stDripChunk(k)); err != nil {
 					return
 				}
@@ -951,8 +952,10 @@ func stIsTimeout(err error) bool {
 
 // readN reads exactly n bytes (or until error / the given simulated deadline).
 // stDripChunk is the k-th chunk a "drip" covert sends (and a one-way uploading client, too).
+const stDripN, stDripGap = 32, 2 * time.Second
+
 func stDripChunk(k int) []byte {
-	b := make([]byte, 600)
+	b := make([]byte, 100)
 	for i := range b {
 		b[i] = byte(0x40 + (k*37+i*11)%0x3f)
 	}
